@@ -207,7 +207,9 @@ func order(c Case, mode string, seed int64, id string) []int {
 	return ids
 }
 
-func runOne(in In, m Mode, seed int64) (out Out) {
+// runOne processes one case in one mode; proc == nil: a fresh Processor (as every operation of a test gets), else the given
+// long-lived Processor (as a router keeps one per configuration and feeds it plan after plan).
+func runOne(in In, m Mode, seed int64, proc *postprocess.Processor) (out Out) {
 	out = Out{ID: in.ID, C: in.C, Mode: m, OutDeps: map[string][]int{}}
 	defer func() {
 		if p := recover(); p != nil {
@@ -219,15 +221,8 @@ func runOne(in In, m Mode, seed int64) (out Out) {
 	for _, f := range order(in.C, m.Order, seed, in.ID) {
 		raw = append(raw, buildFetch(in.C, f))
 	}
-	var opts []postprocess.ProcessorOption
-	if m.Dag {
-		opts = append(opts, postprocess.EnableScheduleFetches())
-	}
-	if m.Multi {
-		opts = append(opts, postprocess.EnableMultiFetch())
-	}
-	if !m.Dedup {
-		opts = append(opts, postprocess.DisableDeduplicateSingleFetches())
+	if proc == nil {
+		proc = newProcessor(m)
 	}
 	if deferred(in.C) {
 		// a DeferResponsePlan as the planner emits it: flat fetches with DeferIDs + one descriptor per @defer.
@@ -242,7 +237,7 @@ func runOne(in In, m Mode, seed int64) (out Out) {
 			Response:         &resolve.GraphQLResponse{RawFetches: raw, Data: &resolve.Object{}},
 			DeferDescriptors: desc,
 		}}
-		postprocess.NewProcessor(opts...).Process(dp)
+		proc.Process(dp)
 		out.Tree = &Node{K: "S", M: []int{}, C: []*Node{
 			export(dp.Response.Response.Fetches, out.OutDeps),
 			exportDefer(dp.Response.DeferTree, out.OutDeps),
@@ -250,9 +245,23 @@ func runOne(in In, m Mode, seed int64) (out Out) {
 		return out
 	}
 	p := &plan.SynchronousResponsePlan{Response: &resolve.GraphQLResponse{RawFetches: raw, Data: &resolve.Object{}}}
-	postprocess.NewProcessor(opts...).Process(p)
+	proc.Process(p)
 	out.Tree = export(p.Response.Fetches, out.OutDeps)
 	return out
+}
+
+func newProcessor(m Mode) *postprocess.Processor {
+	var opts []postprocess.ProcessorOption
+	if m.Dag {
+		opts = append(opts, postprocess.EnableScheduleFetches())
+	}
+	if m.Multi {
+		opts = append(opts, postprocess.EnableMultiFetch())
+	}
+	if !m.Dedup {
+		opts = append(opts, postprocess.DisableDeduplicateSingleFetches())
+	}
+	return postprocess.NewProcessor(opts...)
 }
 
 func parseModes(s string) []Mode {
@@ -284,6 +293,8 @@ func main() {
 	panicf := flag.String("panics", "panics.ndjson", "cases on which the processor panicked")
 	progressf := flag.String("progress", "", "file that always names the (input line, mode) being processed: a crash of the real code (fatal error, e.g. stack overflow) can be attributed")
 	from := flag.Int("from", 0, "skip the first N input lines and append to the outputs (continue after a crash)")
+	reuse := flag.Bool("reuse", false, "REUSE lane: ONE long-lived Processor per mode processes the cases in input order (fetch ids are reused across plans); every tree is exported (id suffix /reuse) and compared with the tree a fresh Processor produces for the same plan")
+	mismatchf := flag.String("mismatch", "mismatch.ndjson", "reuse lane: plans whose tree depends on the plans processed before")
 	withDeps := flag.Bool("deps", false, "also export the final DependsOnFetchIDs (the output is then not uniform enough for TLC)")
 	modes := flag.String("modes", "legacy/asc,dag/asc", "comma separated <legacy|dag>[+multi][-dedup]/<asc|desc|shuf>")
 	flag.Parse()
@@ -320,6 +331,15 @@ func main() {
 	}
 	defer pf.Close()
 	ms := parseModes(*modes)
+	var mf *os.File
+	long := make([]*postprocess.Processor, len(ms))
+	if *reuse {
+		mf, _ = openOut(*mismatchf)
+		defer mf.Close()
+		for i, m := range ms {
+			long[i] = newProcessor(m)
+		}
+	}
 	sc := bufio.NewScanner(f)
 	sc.Buffer(make([]byte, 1<<20), 1<<26)
 	lineNo := 0
@@ -340,7 +360,20 @@ func main() {
 				w.Flush()
 				prog.WriteAt([]byte(fmt.Sprintf("%12d %4d\n", lineNo, mi)), 0)
 			}
-			o := runOne(in, m, seed)
+			o := runOne(in, m, seed, long[mi])
+			if *reuse {
+				o.ID += "/reuse"
+				if o.Panic != "" {
+					long[mi] = newProcessor(m) // a panic may leave the long-lived instance half-way
+				}
+				fresh := runOne(in, m, seed, nil)
+				a, _ := json.Marshal(o.Tree)
+				b, _ := json.Marshal(fresh.Tree)
+				if o.Panic == "" && fresh.Panic == "" && !bytes.Equal(a, b) {
+					line, _ := json.Marshal(map[string]any{"id": o.ID, "c": in.C, "mode": m, "reused": o.Tree, "fresh": fresh.Tree})
+					mf.Write(append(line, '\n'))
+				}
+			}
 			if !*withDeps {
 				o.OutDeps = nil
 			}
